@@ -14,6 +14,7 @@ def run(chk):
     simnet.c12(chk)
     simnet.c12_gated(chk)
     simnet.c12_limited(chk)
+    simnet.c12_starved(chk)
     chk.assumptions += ["QUIC stream-state and credit accounting (RESET_STREAM / STOP_SENDING / MAX_STREAMS) are quinn's: a model component of Rpc.v validated by these runs"]
     if not quick:
         ok, out = coqchk(chk.prop)
